@@ -489,6 +489,17 @@ fn consts_map(exts: &[Ext], skip: &HashSet<usize>, mistype: &HashSet<usize>, ext
     if extra {
         m.entry("PARTY_0".into()).or_default().insert("UNUSED".into(), Literal::NumUnsigned(9, UnsignedNumType::U32));
         m.entry("NOBODY".into()).or_default().insert("X0".into(), Literal::True);
+        // extra constants of kinds that no declared constant can have, naming definitions that the
+        // program does not contain: they are ignored as well
+        use garble_lang::literal::VariantLiteral;
+        let e = m.entry("PARTY_1".into()).or_default();
+        e.insert("UNUSED_ENUM".into(), Literal::Enum("NoSuchEnum".into(), "V".into(), VariantLiteral::Unit));
+        e.insert("UNUSED_ENUM2".into(), Literal::Enum("NoSuchEnum".into(), "W".into(), VariantLiteral::Tuple(vec![Literal::True])));
+        e.insert("UNUSED_STRUCT".into(), Literal::Struct("NoSuchStruct".into(), vec![("a".into(), Literal::NumUnsigned(1, UnsignedNumType::U8))]));
+        e.insert("UNUSED_TUPLE".into(), Literal::Tuple(vec![Literal::False, Literal::NumSigned(-1, garble_lang::token::SignedNumType::I8)]));
+        e.insert("UNUSED_ARRAY".into(), Literal::Array(vec![]));
+        e.insert("UNUSED_RANGE".into(), Literal::Range(5, 2, UnsignedNumType::U8));
+        e.insert("UNUSED_UNSPECIFIED".into(), Literal::NumUnsigned(7, UnsignedNumType::Unspecified));
     }
     m
 }
